@@ -607,6 +607,7 @@ type Result struct {
 	Panics                  []string
 	ParamsMutated           string
 	LockWaits               int
+	Adopted                 int // goroutines the code under test started on its own that became scheduler tasks
 	HoldsForced             int
 	Accepts                 int
 	BuildErr                string
@@ -889,6 +890,7 @@ func RunScheduled(c *Case) *Result {
 	res.InCmd = rt.K.InCommand()
 	res.NConns = len(rt.Conns)
 	res.LockWaits = rt.K.lockWaits
+	res.Adopted = rt.K.adopted
 	res.HoldsForced = rt.K.holdsForced
 	rt.snapshotClosed()
 	rt.setFrozen()
